@@ -230,7 +230,7 @@ UNBOUNDED_OK = {"swap_mutex_fair", "swap_mutex_unfair", "swap_sem_fair", "swap_s
                 "mpmc_close_vs_first_send_poll_cap0", "mpmc_close_vs_first_send_poll_cap1",
                 "timer_expire_vs_drop", "event_set_vs_drop", "sem_release_vs_drop", "mutex_unlock_vs_drop", "mpmc_send_vs_drop_recv",
                 "event_set_vs_first_poll", "mutex_fair_newcomer", "mutex_is_locked_contended", "mpmc_debug_vs_push_exclusive",
-                "mpmc_barger_vs_notified"}
+                "mpmc_barger_vs_notified", "mpmc_try_send_race_cap1", "mpmc_try_send_race_cap2"}
 BIG = {"mpmc_2p1c_cap0", "mpmc_2p1c_cap1", "mpmc_2p1c_cap0_seq", "mutex_cancel_in_queue_fair", "mutex_cancel_in_queue_unfair", "state_followers"}
 
 
@@ -264,6 +264,11 @@ def loom_attribution(name, props, msg):
         return explicit
     if "deadlock" in msg:
         return WAKE_PROPS & set(props)
+    if "self.can_push()" in msg and set(props) & {"C08", "C09"}:
+        # the channel pushed onto a full ring buffer (FixedHeapBuf::push asserts can_push()): more
+        # values accepted than the capacity allows (C09), and the value of the panicking send is
+        # neither delivered nor handed back (C08)
+        return set(props) & {"C08", "C09"}
     if "Causality violation" in msg or "UnsafeCell" in msg:
         if name.endswith("_exclusive") or "_debug_" in name:
             # two threads inside clone() of the same stored payload, or a clone not ordered after
